@@ -2021,6 +2021,16 @@ class VM:
             end = relative(index_arg(args, 1, len(s)))
             return s[start:end]
 
+        def regexp_find(rx: JSRegExp, pos: int):
+            """One matcher step for the regex-driven string methods: a sticky
+            regex matches at pos only, any other regex searches from pos."""
+            if pos > len(s):
+                return None
+            vm_regex = rx._internal._create_vm()
+            if "y" in rx._flags:
+                return vm_regex.match(s, pos)
+            return vm_regex.search(s, pos)
+
         def split(*args):
             sep = args[0] if args else UNDEFINED
             # The limit is a ToUint32 count; undefined means "no limit"
@@ -2194,14 +2204,18 @@ class VM:
 
                     result_parts = []
                     last_end = 0
-                    pos = 0
+                    # A global replace starts at 0 and leaves lastIndex at 0; a sticky
+                    # non-global one starts at lastIndex and leaves it at the end of
+                    # the match (0 when there is none); otherwise lastIndex is not used.
+                    is_sticky = "y" in pattern._flags
+                    pos = pattern.lastIndex if is_sticky and not is_global else 0
+                    matched = False
 
                     while pos <= len(s):
-                        # Create fresh regex VM for each search
-                        vm_regex = regex_internal._create_vm()
-                        match_result = vm_regex.search(s, pos)
+                        match_result = regexp_find(pattern, pos)
                         if match_result is None:
                             break
+                        matched = True
 
                         # Add the part before this match
                         result_parts.append(s[last_end : match_result.index])
@@ -2215,6 +2229,11 @@ class VM:
 
                         if not is_global:
                             break
+
+                    if is_global:
+                        pattern.lastIndex = 0
+                    elif is_sticky:
+                        pattern.lastIndex = last_end if matched else 0
 
                     # Add remainder after last match
                     result_parts.append(s[last_end:])
@@ -2271,9 +2290,7 @@ class VM:
                     matches = []
                     pos = 0
                     while pos <= len(s):
-                        # Create fresh regex VM for each search
-                        vm_regex = regex_internal._create_vm()
-                        result = vm_regex.search(s, pos)
+                        result = regexp_find(pattern, pos)
                         if result is None:
                             break
                         matches.append(result[0])
@@ -2285,11 +2302,17 @@ class VM:
                             else result.index + 1
                         )
 
+                    # The scan ends with a failed match, which resets lastIndex
+                    pattern.lastIndex = 0
                     if not matches:
                         return NULL
                     arr = JSArray()
                     arr._elements = list(matches)
                     return arr
+                elif isinstance(pattern, JSRegExp):
+                    # Non-global: exactly exec(), so a sticky regex starts at
+                    # lastIndex and updates it
+                    return pattern.exec(s)
                 else:
                     # Non-global: return first match with groups
                     vm_regex = regex_internal._create_vm()
@@ -2332,8 +2355,12 @@ class VM:
                 regex_internal = InternalRegExp(to_string(pattern), "", poll_callback)
 
             try:
-                vm_regex = regex_internal._create_vm()
-                result = vm_regex.search(s, 0)
+                if isinstance(pattern, JSRegExp):
+                    # Searches from 0 whatever lastIndex is, and leaves lastIndex alone
+                    result = regexp_find(pattern, 0)
+                else:
+                    vm_regex = regex_internal._create_vm()
+                    result = vm_regex.search(s, 0)
                 return result.index if result else -1
             except RegexTimeoutError:
                 raise TimeLimitError("Regex execution timeout")
